@@ -112,6 +112,10 @@ func v17Pipeline(x *vexp.X, sc *v17Scenario) (*vhook.Sched, func()) {
 			src.demandBlock()
 			<-src.doneCh
 		}
+		// the first raw block has been filled (its writer goroutine was released): ask for another one straight away
+		ctl.StoreRawDataBlock(20, &name)
+		src.demandBlock()
+		<-src.doneCh
 		d := ""
 		ctl.SendAllStatus(&d, &ok)
 		ctl.WriteControl(&WriteControlConfig{Request: "STOP"}, &ok)
@@ -539,7 +543,7 @@ func TestVerifC17(t *testing.T) {
 	if r.Thorough() {
 		pb = 2
 	}
-	r.SetBound(fmt.Sprintf("race-detector build; all interleavings (all select alternatives) with at most %d preemptions (life cycle) / at most as many scheduling deviations of any kind (thread choice or select alternative) from the canonical schedule (delay bounding, pipeline) of: (pipeline) one client issuing record-length, trigger, group-trigger, write-control, raw-block, comment (write and read), state-label, send-all and stop requests against a running two-channel source with pulses, LJH2.2+LJH3 writing, group trigger, record/summary/status consumers; (free-running pipeline) the same source sending three blocks at its own pace while the client configures edge-multi / auto / edge triggers, couples channels, starts and stops LJH2.2 writing, reads the comment and asks for all status; (life cycle) Start with two concurrent Stop callers; (Abaco pipeline) real Start/readerMainLoop/getNextBlock/distributeData/CoreLoop with a scripted packet producer (two groups, one lagging, one lost packet, external-trigger packets in between), clock thread and Stop; (Lancero pipeline) real StartRun/launchLanceroReader/getNextBlock/ConfigureMixFraction/distributeData/CoreLoop with a scripted card (2x2 geometry, 20 frames in 5 reads, external-trigger bits, one lost word so that the reader re-aligns), clock thread, one mix request and Stop", pb))
+	r.SetBound(fmt.Sprintf("race-detector build; all interleavings (all select alternatives) with at most %d preemptions (life cycle) / at most as many scheduling deviations of any kind (thread choice or select alternative) from the canonical schedule (delay bounding, pipeline) of: (pipeline) one client issuing record-length, trigger, group-trigger, write-control, raw-block (two in a row), comment (write and read), state-label, send-all and stop requests against a running two-channel source with pulses, LJH2.2+LJH3 writing, group trigger, record/summary/status consumers; (free-running pipeline) the same source sending three blocks at its own pace while the client configures edge-multi / auto / edge triggers, couples channels, starts and stops LJH2.2 writing, reads the comment and asks for all status; (life cycle) Start with two concurrent Stop callers; (Abaco pipeline) real Start/readerMainLoop/getNextBlock/distributeData/CoreLoop with a scripted packet producer (two groups, one lagging, one lost packet, external-trigger packets in between), clock thread and Stop; (Lancero pipeline) real StartRun/launchLanceroReader/getNextBlock/ConfigureMixFraction/distributeData/CoreLoop with a scripted card (2x2 geometry, 20 frames in 5 reads, external-trigger bits, one lost word so that the reader re-aligns), clock thread, one mix request and Stop", pb))
 	scs := []*v17Scenario{
 		{name: "pipeline", run: v17Pipeline, bound: pb}, // delay-bounded (see vhook.Options.DelayBound)
 		{name: "pipeline-freerun", run: v17FreeRun, bound: pb},
